@@ -69,7 +69,17 @@ EXTRA_FAULTS = [0, -1, 255, 9999, 'noerrno', 'runtime']
 
 
 def fixed_digest_algorithms():
-    return sorted(a for a in hashlib.algorithms_guaranteed if hashlib.new(a).digest_size > 0)
+    # the docstring points callers to hashlib.algorithms_available: the guaranteed ones plus whatever else
+    # hashlib.new() can construct here (OpenSSL-provided), and an upper-case spelling
+    names = set(hashlib.algorithms_guaranteed)
+    for a in sorted(hashlib.algorithms_available):
+        try:
+            hashlib.new(a)
+            names.add(a)
+        except Exception:  # noqa  (listed but disabled by the OpenSSL build)
+            pass
+    names.add('SHA256')
+    return sorted(a for a in names if hashlib.new(a).digest_size > 0)
 
 
 def grid_sizes(cs):
@@ -413,6 +423,9 @@ def _ev_ensure_inject(ctx, case, fu):
 
     def fake_makedirs(name, mode=0o777, exist_ok=False):
         calls.append((name, mode, exist_ok))
+        if state == 'appears':
+            # a concurrent creator wins the race: the directory exists by the time mkdir reports EEXIST
+            real(name)
         raise err
 
     try:
@@ -435,8 +448,12 @@ def _ev_ensure_inject(ctx, case, fu):
     finally:
         shutil.rmtree(d, ignore_errors=True)
     ctx.case(('ensure-inject', code, state, mode, tuple(case.get('under', []))))
-    absorb = code == errno.EEXIST and state == 'dir'
+    absorb = code == errno.EEXIST and state in ('dir', 'appears')
     if not calls:
+        if state == 'dir' and exc is None and after == before:
+            # the work was already done and the helper noticed without asking makedirs: nothing to inject into
+            ctx.clause('ensure-already-done-without-makedirs')
+            return
         ctx.inconclusive_because('os.makedirs failpoint not reached by ensure_tree')
         return
     if absorb:
@@ -457,7 +474,7 @@ def _ev_ensure_inject(ctx, case, fu):
         ctx.h('errno outcomes (named)', 'ensure_tree/%s/%s: %s' % (state, errname(code), outcome))
     if calls[0][0] != t or (mode is not None and calls[0][1] != mode):
         ctx.fail('ensure-passes-path-and-mode', case, {'makedirs_called_with': calls[0], 'path': t, 'mode': mode})
-    if after != before:
+    if after != before and state != 'appears':
         ctx.fail('ensure-fault-leaves-tree-untouched', case, {'state': state, 'errno': errname(code)})
 
 
@@ -754,7 +771,7 @@ def run(ctx):
     # ---- 4. errno enumeration -----------------------------------------
     codes = sorted(errno.errorcode)
     for code in codes + EXTRA_FAULTS:
-        for state in ('dir', 'file', 'absent'):
+        for state in ('dir', 'file', 'absent', 'appears'):
             emit(dict(kind='ensure-inject', code=code, state=state, mode=None))
             emit(dict(kind='ensure-inject', code=code, state=state, mode=0o750, under=['a', 'b']))
         for state in ('file', 'absent', 'dir'):
